@@ -25,11 +25,15 @@ def shards(tier):
         {"name": "small.np.jit", "mode": "jit", "backend": "np", "fn": "small", "stride": 24 if q else 2},
         {"name": "small.torch", "mode": "jit", "backend": "torch", "fn": "small", "stride": 384 if q else 32},
         {"name": "rand.np.jit", "mode": "jit", "backend": "np", "fn": "rand", "n": 500 if q else 30000},
+        {"name": "forms.np.jit", "mode": "jit", "backend": "np", "fn": "rand", "n": 150 if q else 8000, "forms": 1},
         {"name": "rand.np.interp", "mode": "interp", "backend": "np", "fn": "rand", "n": 120 if q else 3000},
         {"name": "rand.torch", "mode": "jit", "backend": "torch", "fn": "rand", "n": 60 if q else 2500},
         {"name": "live.np.jit", "mode": "jit", "backend": "np", "fn": "live", "n": 40 if q else 2500},
         {"name": "live.np.interp", "mode": "interp", "backend": "np", "fn": "live", "n": 12 if q else 400},
         {"name": "live.torch", "mode": "jit", "backend": "torch", "fn": "live", "n": 10 if q else 400},
+        {"name": "big.np.jit", "mode": "jit", "backend": "np", "fn": "big", "n": 2 if q else 40},
+        {"name": "big.np.interp", "mode": "interp", "backend": "np", "fn": "big", "n": 1 if q else 4},
+        {"name": "big.torch", "mode": "jit", "backend": "torch", "fn": "big", "n": 1 if q else 6},
     ]
     if not q:
         for k in range(4):
@@ -245,3 +249,67 @@ def run_live(shard, rec, B):
                     want = np.trace(R @ O.rho(sg, sp, sr)).real
                     rec.check("live.overlap", abs(_num(B, x) - want) < 1e-6, case, True, expected=want, observed=_num(B, x))
         live.walk(rec, B, rng, N, int(rng.integers(4, 16)), query)
+
+
+def run_big(shard, rec, B):
+    """wide registers (N up to 130): expectations by the group oracle, overlaps and bit-string probabilities down to 2^-130
+    by sequential group projection (no dense matrices exist at these sizes)."""
+    rng = gen.rng_for(rec)
+    Ns = [31, 32, 33, 62, 63, 64, 65, 66, 70, 127, 128, 130] if B.name == "np" else [33, 65]
+    for t in range(shard["n"]):
+        for N in Ns:
+            kind = int(rng.integers(3))
+            if kind == 0:     # |+...+>: every bit string has probability 2^-N
+                tg = np.zeros((2 * N, 2 * N), dtype=np.int64)
+                for a in range(N):
+                    tg[a, 2 * a] = 1
+                    tg[N + a, 2 * a + 1] = 1
+                tp = np.zeros(2 * N, dtype=np.int64)
+                r = 0
+            else:
+                r = 0 if kind == 1 else int(rng.integers(1, N))
+                tg, tp, _ = O.random_tableau(rng, N, r=r, nrot=(N + 4 if kind == 1 else 6))
+            S = B.State(tg.copy(), tp.copy(), r)
+            G = O.GroupState.from_tableau(tg, tp, r)
+            L = 6
+            og = np.stack([gen.sparse_string(rng, N) for _ in range(L)])
+            for j in range(min(3, N - r)):
+                og[j] = tg[r + int(rng.integers(N - r))]
+            op = 2 * rng.integers(0, 2, L)
+            sc = {"N": N, "r": r, "kind": kind}
+            ok, xs = rec.attempt("exp.list", sc, lambda: S.expect(B.PauliList(og.copy(), op.copy())))
+            if ok:
+                want = np.array([np.real(G.expect(g, p)) for g, p in zip(og, op)])
+                got = B.npf(xs).astype(float).reshape(-1)
+                rec.check("exp.list", got.shape == want.shape and np.allclose(got, want), dict(sc, obs=_show(og, op)), True, expected=want, observed=got)
+            if r == 0:
+                b = rng.integers(0, 2, N)
+                G2 = G.copy()
+                pr = 1.0
+                for a in range(N):
+                    z = np.zeros(2 * N, dtype=np.int64)
+                    z[2 * a + 1] = 1
+                    pr *= G2.project(z, 0, int(b[a]))
+                    if pr == 0:
+                        break
+                ok, x = rec.attempt("prob.value", sc, lambda: S.get_prob(np.array(b) if B.name == "np" else B.torch.tensor(b)))
+                if ok:
+                    got = _num(B, x).real
+                    tol = 1e-9 if B.name == "np" else 1e-5
+                    rec.check("prob.value", abs(got - pr) <= tol * pr + (0 if pr else 1e-300) and (pr > 0 or got == 0), dict(sc, bits=b), True,
+                              expected=pr, observed=got, tags={"log2p": float(np.log2(pr)) if pr else None})
+                sg, sp, sr = O.random_tableau(rng, N, nrot=4)
+                if rng.integers(2):
+                    sg, sp, sr = tg.copy(), tp.copy(), int(rng.integers(0, N))
+                G3 = G.copy()
+                pr = 1.0
+                for a in range(sr, N):
+                    pr *= G3.project(sg[a], sp[a], 0)
+                    if pr == 0:
+                        break
+                pr = pr / 2.0 ** sr
+                ok, x = rec.attempt("exp.state", sc, lambda: S.expect(B.State(sg.copy(), sp.copy(), sr)))
+                if ok:
+                    got = _num(B, x).real
+                    tol = 1e-9 if B.name == "np" else 1e-5
+                    rec.check("exp.state", abs(got - pr) <= tol * pr and (pr > 0 or got == 0), dict(sc, sigma_r=sr), True, expected=pr, observed=got)
